@@ -2,6 +2,7 @@ SPECIFICATION Spec
 CONSTANTS
   L = 3
   MaxReq = 4
+  FreeAtReleasedPage = FALSE
   ParentBitOnlyOnExactFit = FALSE
 INVARIANTS NoDoubleHandOut NoLeak WellFormed Merged NeverFailsWithFreeBlock
 CHECK_DEADLOCK FALSE
